@@ -94,9 +94,12 @@ def edited_schema_cases(ctx, work):
     import zarr
     rng = ctx.rng
     for k in range(10 if ctx.thorough else 3):
-        spec = vcfgen.rich_file(rng, nrec=rng.choice([4, 12, 30]), ploidies=(2,))
+        # k == 0: several hundred contigs with records on late ones (contig indexes beyond one byte, few filters)
+        spec = vcfgen.rich_file(rng, nrec=30, ploidies=(2,), ncontig=rng.choice([200, 300])) if k == 0 else \
+            vcfgen.rich_file(rng, nrec=rng.choice([4, 12, 30]), ploidies=(2,))
         if not spec["records"]:
             continue
+        ctx.count("inputs_many_contigs" if k == 0 else "inputs")
         path = vcfgen.materialise(spec, pathlib.Path(work) / f"e{k}", "vcf.gz+tbi")
         icf = pathlib.Path(work) / f"e{k}.icf"
         convlib.explode(icf, [path])
@@ -123,7 +126,12 @@ def edited_schema_cases(ctx, work):
                 ctx.disagree("Model.SchemaJson accepts a schema of another format version", inp0, m2.get("n_fields"), "ValueError")
         ref = pathlib.Path(work) / f"e{k}_ref.zarr"
         shutil.rmtree(ref, ignore_errors=True)
-        vcf2zarr.encode(icf, ref, worker_processes=0)
+        try:
+            vcf2zarr.encode(icf, ref, worker_processes=0)
+        except Exception as e:  # noqa: BLE001
+            ctx.violate(f"encoding with the generated schema failed (the schema does not fit the store): {type(e).__name__}: {str(e)[:200]}",
+                        inp0, "store", repr(e)[:200])
+            continue
         ref_store, _ = vczspec.read_store(ref)
         # generated schema fits: encode result equals the oracle (no clipping) — values with edges
         exp = vczspec.expected_store(spec)
